@@ -20,13 +20,14 @@ RULE = ("evaluations = calls of probit / confidence_interval on the grid; a case
 
 EPS = 2.0**-52
 C = math.sqrt(math.pi / 8)
-NS = sorted({1, 2, 3, 5, 7} | {int(round(10 ** (e / 4))) for e in range(4, 37)})
+NS = sorted({1, 2, 3, 5, 7} | {int(round(10 ** (e / 4))) for e in range(4, 37)} | {1.0, 1.5, 1.9, 2.5, 9.99, 33.3, 33333.3, 1e9 + 0.5, 7.000001})  # "every n >= 1": effective sample sizes are not integers
 PS = [k / 40 for k in range(41)]
 CONFS = sorted({1e-6, 1e-3, 0.01, 0.05, 0.1, 0.25, 0.5, 0.6, 0.75, 0.8, 0.9, 0.95, 0.975, 0.99, 0.995, 0.999, 0.9999,
                 1 - 1e-5, 1 - 1e-6, 1 - 1e-8, 1 - 1e-10, 1 - 1e-12, 0.3, 0.4, 0.68})  # fmt: skip
 METHODS = ["agresti-coull", "wald"]
 UNKNOWN = ["wilson", "clopper-pearson", "bogus", "", "agre\u017fti-coull", "agre\ufb06i-coull", "ｗａｌｄ", "wald\u200b", "wa\u0131d", "agresti\u2010coull", "agresti_coull",
-           "agresti coull", "wal", "waldo", "agresti-coull-wald", "\u212aald", "ac", "a", "-", "agresti", "coull", "ald", "w", "W", "None", "0"]
+           "agresti coull", "wal", "waldo", "agresti-coull-wald", "\u212aald", "ac", "a", "-", "agresti", "coull", "ald", "w", "W", "None", "0",
+           b"wald", b"agresti-coull", bytearray(b"wald"), ("wald",), ["agresti-coull"]]  # a name of another type is not one of the two known names either
 
 
 def textbook(n, p, conf, method, z):
